@@ -554,18 +554,22 @@ class Report:
             json.dump(ev, f, indent=1, ensure_ascii=True, default=str)
 
 
-def ddmin(items, fails, max_tests=400):
-    """delta debugging: smallest sublist (order kept) for which fails(sublist) is still true"""
+def ddmin(items, fails, max_tests=400, max_seconds=120):
+    """delta debugging: smallest sublist (order kept) for which fails(sublist) is still true; gives up refining after
+    `max_seconds` (candidates that run into a watchdog are expensive) — what it has then is still a failing case"""
     tests = 0
+    t_end = time.time() + max_seconds
     n = 2
     items = list(items)
-    while len(items) >= 2 and tests < max_tests:
+    while len(items) >= 2 and tests < max_tests and time.time() < t_end:
         chunk = max(1, len(items) // n)
         subsets = [items[i:i + chunk] for i in range(0, len(items), chunk)]
         reduced = False
         for i in range(len(subsets)):
             cand = [x for j, s in enumerate(subsets) if j != i for x in s]
             tests += 1
+            if time.time() > t_end:
+                break
             try:
                 bad = fails(cand)
             except Exception:
